@@ -66,7 +66,9 @@ theorem executeTx_shape (c : Ctx) (w : World) (bp : Nat) (tx : Tx) : (executeTx 
   · split
     · exact Or.inl ⟨_, rfl, rfl, rfl, rfl, rfl⟩
     · split
-      · exact runtimeBranch_shape _ _ _ _ _ _ _ _ _
+      · split
+        · exact finishOwn_shape _ _ _ _ _ (by simp)
+        · exact runtimeBranch_shape _ _ _ _ _ _ _ _ _
       · split
         · exact Or.inl ⟨_, rfl, rfl, rfl, rfl, rfl⟩
         · rename_i rcv st hrcv
